@@ -34,7 +34,7 @@ SPEC = {
 
 KINDS = ['date', 'description', 'amount', 'location', 'ca', 'cb', 'skip']
 DATE_FORMATS = [None, '%d  %b  %y', '%d\t%b %y', '%d %b  %y', '%b %d,  %Y', '%b %d, %Y', '%A, %d %B %Y', '%A, %B %d, %Y', '%a, %d %b, %Y, %H:%M', '%d,%m,%Y', '%m/%d/%Y', '%Y-%m-%d', '%d.%m.%Y', '%d %b %y', '%m/%d/%y', '%Y%m%d', '%d-%b-%Y %H:%M']
-CUSTOM_NAMES = [('type', 'merchant'), ('Cardholder', 'memo'), ('txn_type', 'Payee2'), ('a', 'b'), ('_memo', '_type'), ('_id', 'ref_'), ('__', 'x_')]
+CUSTOM_NAMES = [('type', 'merchant'), ('Cardholder', 'memo'), ('txn_type', 'Payee2'), ('a', 'b'), ('_memo', '_type'), ('_id', 'ref_'), ('__', 'x_'), ('Stra\u00dfe', 'Gr\u00f6\u00dfe'), ('\u017fee', 'o\ufb01')]
 
 
 def model(seq, template, names):
@@ -95,7 +95,8 @@ def render(seq, rnd, names):
             t = '{%s}' % rnd.choice(['location', 'Location'])
         else:
             nm = names[0] if k == 'ca' else names[1]
-            t = '{%s}' % rnd.choice([nm, nm.upper(), nm.lower()])
+            # (upper-casing is only used where it is reversible: 'ß'.upper() is 'SS', another name)
+            t = '{%s}' % rnd.choice([nm, nm.lower()] + ([nm.upper()] if nm.upper().lower() == nm.lower() else []))
         pad_l, pad_r = rnd.choice(['', '', ' ', '  ']), rnd.choice(['', '', ' ', '\t'])
         toks.append(pad_l + t + pad_r)
     return ','.join(toks), meta
